@@ -370,13 +370,32 @@ impl Criterion {
   pub fn is_applicable<'a>(
     &self,
     topic_name: &'a str,
-    mut partitions: impl Iterator<Item = &'a &'a str>,
+    partitions: impl Iterator<Item = &'a &'a str>,
     mut data_tags: impl Iterator<Item = &'a (&'a str, &'a str)>,
   ) -> bool {
     debug_assert!(!self.topics.is_empty());
 
+    // An Entity that lists no partitions belongs to the default "empty string" partition, and
+    // a Criterion that lists no partition expressions covers only that default partition.
+    // Without this, a rule restricted to some partitions would vacuously apply to every Entity
+    // that has no partitions.
+    let default_partition_expression = [Pattern::default()]; // matches only ""
+    let partition_expressions = if self.partitions.is_empty() {
+      &default_partition_expression[..]
+    } else {
+      &self.partitions[..]
+    };
+    let partition_is_covered =
+      |p: &str| partition_expressions.iter().any(|glob| glob.matches(p));
+    let mut partitions = partitions.peekable();
+    let partitions_are_covered = if partitions.peek().is_none() {
+      partition_is_covered("")
+    } else {
+      partitions.all(|p| partition_is_covered(p))
+    };
+
     self.topics.iter().any(|glob| glob.matches(topic_name))
-      && partitions.all(|p| self.partitions.iter().any(|glob| glob.matches(p)))
+      && partitions_are_covered
       && data_tags.all(|(name, value)| self.data_tags.iter().any(|dt| dt.check(name, value)))
   }
 
